@@ -343,7 +343,30 @@ func (tr *simTransport) RoundTrip(req *http.Request) (*http.Response, error) {
 		hdr.Set("Content-Type", *np.CType)
 	}
 	data := tr.world.docs[op.Doc]
-	body := newSimReader(k, oo, "net-body", data, np.Body)
+	bodyPlan := np.Body
+	clen := int64(-1)
+	if np.CLen != nil {
+		clen = *np.CLen
+		hdr.Set("Content-Length", strconv.FormatInt(clen, 10))
+		bp := plan.ReaderPlan{FaultAt: -1}
+		if bodyPlan != nil {
+			bp = *bodyPlan
+		}
+		switch {
+		case clen >= 0 && clen < int64(len(data)):
+			data = data[:clen] // the transport delivers exactly the declared length
+			if bp.FaultAt > len(data) {
+				bp.FaultAt = -1
+			}
+		case clen > int64(len(data)) && (bp.FaultAt < 0 || bp.FaultAt >= len(data)):
+			bp.FaultAt = len(data) // connection closed before the declared length
+			bp.FaultKind = "err:unexpected-eof"
+			data = append(append([]byte(nil), data...), 0)
+		}
+		bodyPlan = &bp
+		fire("content-length-declared")
+	}
+	body := newSimReader(k, oo, "net-body", data, bodyPlan)
 	body.done = done
 	body.ctxErr = ctxErr
 	body.stallAt = np.StallAt
@@ -357,7 +380,7 @@ func (tr *simTransport) RoundTrip(req *http.Request) (*http.Response, error) {
 		fire("status-" + strconv.Itoa(status))
 	}
 	return &http.Response{Status: strconv.Itoa(status) + " " + http.StatusText(status), StatusCode: status,
-		Proto: "HTTP/1.1", ProtoMajor: 1, ProtoMinor: 1, Header: hdr, Body: body, ContentLength: -1, Request: req}, nil
+		Proto: "HTTP/1.1", ProtoMajor: 1, ProtoMinor: 1, Header: hdr, Body: body, ContentLength: clen, Request: req}, nil
 }
 
 // ---------------------------------------------------------------- SimLogSink
